@@ -63,7 +63,7 @@ def c18_family(tier, sd=0):
         mk([("A", 0, "a"), ("B", 2047, "ab"), ("C", 1024, "abc")]),
         mk([("A", 5, "x"), ("B", 5, "xy"), ("H", 5, "xyzw")]),                    # same id, buses that prefix one another
         mk([("A", 1, "can0"), ("B", 2, "can0"), ("F", 256, "can0")]),             # same bus; 256 vs 0 in the low byte
-        mk([("K", 7, "b1"), ("D", 8, None)], [("other", "G", None, {"id": 7, "bus": "b1"}, [])]),   # bus-less and non-CAN bindings
+        mk([("K", 7, "b1"), ("D", 8, None)], [("other", "G", None, {"id": 9, "bus": "b1"}, [])]),   # bus-less and non-CAN bindings
         mk([("G", 2047, "zzzz"), ("F", 2046, "zzz")]),
         mk([("D", 300, "CAN1"), ("C", 3, "_"), ("H", 30, "CAN1")]),
     ]
@@ -411,7 +411,7 @@ def c18_case(args):
         res["vacuity"]["entry points never reached"] = len(want - reached)
         if want - reached and not res["violations"]:
             res["inconclusive"].append(f"{desc}: never reached the end of {sorted(want - reached)}")
-        res["functions"] = ["generated:can_static_schema.h:CanStaticSchema::Encode/Decode/GetMsgName/GetSid/GetBus",
+        res["functions"] = ["can.h:fcp::can::Can::Encode/Decode", "generated:can_static_schema.h:CanStaticSchema::Encode/Decode/GetMsgName/GetSid/GetBus",
                             "generated:fcp.h:StaticSchema::EncodeJson/DecodeJson", "generated:fcp.h:<S>::Encode/<S>::Decode",
                             "buffer.h:Buffer::*", "decoders.h:*", "i_can_schema.h:frame_t"]
         res["sample"] = {"schema": desc, "ir_steps": steps, "paths": res["paths"], "queries": res["queries"]}
@@ -439,7 +439,8 @@ def run_c18(tier: str) -> int:
                  "operator new/delete (fresh 0xAA-filled block)", "basic_string::_M_create/_M_mutate (libstdc++ rules)",
                  "basic_string::compare(const char*) / memcmp (lexicographic, symbolic bytes allowed) / strlen",
                  "__cxa_throw & std::__throw_* end the path as a C++ exception", "llvm.* intrinsics"]
-    rep.assumptions = ["the harness calls CanStaticSchema::Encode/Decode directly (fcp::can::Can only forwards through a shared_ptr)",
+    rep.assumptions = ["the harness goes through fcp::can::Can{std::make_shared<CanStaticSchema>()} (virtual dispatch through the vtable; "
+                       "the shared_ptr's atomic reference counting is executed as plain single-thread operations)",
                        "a null json is handed through Encode; its copies and destructors are interpreted",
                        "oracle: refspec canonical bytes; bus tag = the bus name followed by NUL bytes up to 4",
                        "counterexamples are replayed through fcp::can::Can and real JSON, compiled with clang++ and g++"]
